@@ -343,6 +343,7 @@ func trimStack(st string) string {
 var blockedStates = []string{"semacquire", "sync.Mutex.Lock", "sync.RWMutex.Lock", "sync.RWMutex.RLock", "chan send", "chan receive", "select", "sync.WaitGroup.Wait", "sync.Cond.Wait"}
 
 type gor struct {
+	id     string
 	state  string
 	frames []string // repo frames, innermost first
 	all    string
@@ -362,7 +363,11 @@ func parseGoroutines(dump string) []gor {
 				st = st[:j]
 			}
 		}
-		g := gor{state: st, all: blk}
+		id := strings.TrimPrefix(lines[0], "goroutine ")
+		if j := strings.Index(id, " "); j > 0 {
+			id = id[:j]
+		}
+		g := gor{id: id, state: st, all: blk}
 		for _, ln := range lines[1:] {
 			ln = strings.TrimSpace(ln)
 			if strings.HasPrefix(ln, repoPrefix) {
@@ -398,6 +403,18 @@ func allStacks() string {
 		}
 		buf = make([]byte, 2*len(buf))
 	}
+}
+
+// identity is the stability signature: the same goroutines (by id) parked in the same state at
+// the same frames. A retry loop that keeps spawning short-lived goroutines (a livelock) has
+// the same frames in every dump but different goroutine ids, and is therefore not "stable".
+func identity(gs []gor) string {
+	var parts []string
+	for _, g := range gs {
+		parts = append(parts, g.id+"/"+g.state+"/"+strings.Join(g.frames, "<"))
+	}
+	sort.Strings(parts)
+	return strings.Join(parts, "\n")
 }
 
 func sig(gs []gor) (string, bool) {
@@ -455,13 +472,14 @@ func (k *Case) Watch(name string, watchdog time.Duration, fn func()) bool {
 	case <-done:
 		k.Inconclusive("slow:" + name)
 		return true
-	case <-time.After(2 * time.Second):
+	case <-time.After(5 * time.Second):
 	}
 	d2 := allStacks()
-	s1, b1 := sig(parseGoroutines(d1))
-	s2, b2 := sig(parseGoroutines(d2))
-	if s1 == s2 && b1 && b2 && s1 != "" {
-		k.Violation("deadlock:"+s1, "call "+name+" never returned; all lisk-engine goroutines parked at identical frames in two dumps 2s apart", map[string]any{"op": name, "blocked": s1, "dump": trimDump(d2)})
+	g1, g2 := parseGoroutines(d1), parseGoroutines(d2)
+	s1, b1 := sig(g1)
+	s2, b2 := sig(g2)
+	if s1 == s2 && b1 && b2 && s1 != "" && identity(g1) == identity(g2) {
+		k.Violation("deadlock:"+s1, "call "+name+" never returned; all lisk-engine goroutines the same goroutines parked at identical frames in two dumps 5s apart", map[string]any{"op": name, "blocked": s1, "dump": trimDump(d2)})
 	} else {
 		k.Inconclusive("watchdog-unstable:" + name)
 	}
